@@ -315,7 +315,7 @@ def observe_join(case, aux=()):
             def warm_with(other_cols, as_left):
                 def warm(t):
                     o = _mk_table(other_cols)
-                    for how in ("inner", "full"):
+                    for how in ("inner", "left", "full"):
                         try:
                             (call_join(case, t, o, how=how, expect="many_to_many")[0] if as_left
                              else call_join(case, o, t, how=how, expect="many_to_many")[0])()
